@@ -1,6 +1,7 @@
 import RedactVerif.Props.C01
 import RedactVerif.Props.FactsReset
 import RedactVerif.Props.FactsSkelBuffer
+import RedactVerif.Props.TransBuffer
 /-
 C13 — buffer accessors are pure; Reset and Take return to a pristine buffer.
 
